@@ -9,7 +9,11 @@ for d in sorted(glob.glob('/verif/seeded/C*-*')):
     p=subprocess.run(['/verif/bin/hv','check-patch',pid,os.path.join(d,'patch.diff')],capture_output=True,text=True)
     rules=sorted(set(re.sub(r'#\d+$','',l.split(' ',1)[1]) for l in p.stdout.splitlines() if l.startswith('FIRES ')))
     m=json.load(open(os.path.join(d,'meta.json')))
-    if p.returncode==3:
+    if m.get('obsolete'):
+        status='obsolete (neutralised by a later fix, see meta.json)'
+        m['detected_by_check']=False
+        json.dump(m,open(os.path.join(d,'meta.json'),'w'),indent=1,ensure_ascii=False)
+    elif p.returncode==3:
         status='skipped (patch no longer applies)'
     else:
         m['detected_by_check']= p.returncode==1
